@@ -105,6 +105,23 @@ pub fn walk_glob(rng: &mut Rng, spec: &TreeSpec) -> String {
                     }
                     out.push(piece);
                 }
+                // Round 7 (C02-H): two neighbouring components merged into one branch that spans
+                // the separator, next to an alternative of another component count, in a glob of
+                // bounded depth: the component programs stop at that branch, and anything that
+                // reasons about depth from there on has to get the level right for every family
+                // (unrooted, parent-relative, rooted).
+                if out.len() >= 2 && rng.chance(1, 3) {
+                    let i = rng.below(out.len() - 1);
+                    if out[i] != "**" && out[i + 1] != "**" {
+                        let merged = match rng.below(4) {
+                            0 => format!("{{{}/{},zz}}", out[i], out[i + 1]),
+                            1 => format!("{{zz,{}/{}}}", out[i], out[i + 1]),
+                            2 => format!("{{{}/{},{}}}", out[i], out[i + 1], out[i]),
+                            _ => "<*/:1,2>*".to_string(),
+                        };
+                        out.splice(i..i + 2, [merged]);
+                    }
+                }
                 out.join("/")
             },
             6..=7 => {
